@@ -170,8 +170,10 @@ def prove(pid, spec, thorough):
         else:
             res["discharged"] += 1
     if thorough and not res["failures"]:
-        rc, out = sh(["lake", "env", "leanchecker", module], cwd=LEAN, timeout=3000)
-        res["leanchecker"] = "ok" if rc == 0 else out[-800:]
+        # independent re-check of the compiled module by the toolchain's checker; --fresh replays every
+        # declaration the module depends on (core library included) instead of trusting imported .olean files
+        rc, out = sh(["lake", "env", "leanchecker", "--fresh", module], cwd=LEAN, timeout=3000)
+        res["leanchecker"] = "ok (--fresh)" if rc == 0 else out[-800:]
         if rc != 0:
             res["failures"].append("leanchecker rejected " + module)
     res["ok"] = not res["failures"] and res["discharged"] == res["obligations"] and res["obligations"] > 0
@@ -438,7 +440,7 @@ def run_check(pid, tier, seed):
     cov = {
         "obligations": pr["obligations"], "discharged": pr["discharged"],
         "checker_cmd": f"cd lean && lake build {spec['module']} && lake env lean .lake/audit/{pid}.lean  (#print axioms on every theorem)"
-                       + ("; lake env leanchecker " + spec["module"] if thorough else ""),
+                       + ("; lake env leanchecker --fresh " + spec["module"] if thorough else ""),
         "trusted_base": TRUSTED_COMMON + spec.get("trusted", []),
         "theorems": pr.get("theorems", []),
         "axioms_used": sorted({a for v in pr["axioms"].values() for a in v}),
